@@ -207,4 +207,42 @@ theorem caps_spec {samples blacklist : List String} {s : String} (h : caps sampl
   have := List.find?_some h
   simpa using this
 
+/-! ## identifiers of one program are distinct -/
+
+/-- identifiers made (in whatever modes) from the words of one draw history over a lower-case
+    pool are pairwise distinct: equal identifiers come from the same draw -/
+theorem identifiers_distinct {p p' : Pool} {cs rs : List String} (hl : ∀ w ∈ p.words, IsLowerWord w)
+    (h : p.draws cs = some (rs, p')) (mode : Nat → Mode) (i j : Nat) (hi : i < rs.length) (hj : j < rs.length)
+    (heq : genIdentifier (mode i) rs[i] = genIdentifier (mode j) rs[j]) : i = j := by
+  obtain ⟨_, nd, mem, _, _, _⟩ := draws_spec cs p p' rs h
+  have hw := genIdentifier_word (hl _ (mem _ (List.getElem_mem hi))) (hl _ (mem _ (List.getElem_mem hj))) heq
+  exact (List.getElem_inj nd).mp hw
+
+/-! ## the two variants of the removal -/
+
+theorem removeReservedVariant_true : removeReservedVariant true = removeReservedFixed := rfl
+theorem removeReservedVariant_false : removeReservedVariant false = removeReserved := rfl
+
+/-- what survives any variant of the removal was in the pool -/
+theorem mem_pool_of_mem_variant {b : Bool} {pool kw : List String} {w : String}
+    (h : w ∈ removeReservedVariant b pool kw) : w ∈ pool := by
+  cases b
+  · exact (mem_removeReserved.mp h).1
+  · exact (mem_removeReservedFixed.mp h).1
+
+/-- only words equal to a keyword up to case can ever yield a keyword -/
+theorem lower_mem_of_reserved {kw : List String} {w : String} {m : Mode} (h : genIdentifier m w ∈ kw) :
+    lower w ∈ kw.map lower := by
+  rw [← lower_genIdentifier m w]
+  exact List.mem_map_of_mem h
+
+/-- words drawn after `remove_reserved_words` (repaired variant) never yield a keyword -/
+theorem drawn_not_reserved_of_fixed (p p' : Pool) (kw cs rs : List String) (m : Mode)
+    (h : Pool.draws { initial := removeReservedFixed p.initial kw, words := removeReservedFixed p.words kw } cs
+          = some (rs, p')) :
+    ∀ r ∈ rs, genIdentifier m r ∉ kw := by
+  intro r hr
+  obtain ⟨_, _, mem, _, _, _⟩ := draws_spec cs _ p' rs h
+  exact not_reserved_of_fixed p.words kw r m (mem r hr)
+
 end Heph.Pool
